@@ -3,40 +3,33 @@
   ONLY property theorems and non-vacuity examples live here (helpers: Lemmas/NsMapper.lean).
 
   Reading of the property.  A key of decoded data is produced by `mapQName` in the mapper state the
-  validators have set for the node (`visit`).  A reader of the data resolves it by the XML Namespaces
-  rules (`resolveElem` / `resolveAttr`) with the declarations in force, which in stacked mode are the
-  mapper's `namespaces` (`stack_discipline`: they are exactly the fold of the xmlns declarations on
-  the path root → node).  The name survives iff the resolution gives back the expanded name; this is
-  reduced to the invariant `ReverseOk` (`roundtrip_*`), which every mapper operation must preserve.
+  validators have set for the node (`visit`, `decodeT`).  A reader of the data resolves it by the XML
+  Namespaces rules (`resolveElem` / `resolveAttr`; on whole data trees `readItem`) with the declarations the
+  data reports, which in stacked mode are the mapper's `namespaces` (`stack_discipline`: they are exactly the
+  fold of the xmlns declarations on the path root → node, and each element reports exactly its own
+  declarations).  The name survives iff the resolution gives back the expanded name; this is reduced to the
+  invariant `ReverseOk` (`roundtrip_*`), which every mapper operation preserves (`ops_inv`: for the code as it
+  is now, unconditionally, in every xmlns_processing mode).  Collapsed / root-only / none processing keep ONE
+  map that only grows (`flat_*`): names resolve against the map reported at the root.  The encoders resolve
+  every key exactly as the reader does (`encode_reads`), hence encode ∘ decode restores the expanded names
+  (`encode_decode_names`).  Where the code falls short of the full statement the `_partial` /
+  `_counterexample` pairs show the exact gap (findings C17-F4, F7, F9).
+
+  The specification side (resolvers, reader of data trees, invariant) is in Lemmas/NsSpec.lean.
 -/
 import XsVerif.Model.NsMapper
 import XsVerif.Lemmas.NsMapper
 import XsVerif.Lemmas.NsStack
+import XsVerif.Lemmas.NsSpec
+import XsVerif.Lemmas.NsInv
+import XsVerif.Lemmas.NsCollapse
+import XsVerif.Lemmas.NsEncode
+import XsVerif.Lemmas.NsDenote
 
 set_option linter.unusedSimpArgs false
 
 namespace XsVerif.Props.C17
 open XsVerif.NsMapper XsVerif.NsMapper.Map XsVerif.NsMapper.Stack
-
-/-! ### S: resolution of a key by the XML Namespaces rules -/
-
-/-- element names: an unprefixed name takes the default namespace when one is set -/
-def resolveElem (ns : Map) : PName → Option QN
-  | .braced u l => some ⟨u, l⟩
-  | .pre p l => match ns.get p with
-    | some u => if u = "" then none else some ⟨u, l⟩
-    | none => none
-  | .loc l => match ns.get "" with
-    | some d => some ⟨d, l⟩
-    | none => some ⟨"", l⟩
-
-/-- attribute names: an unprefixed name is in no namespace -/
-def resolveAttr (ns : Map) : PName → Option QN
-  | .loc l => some ⟨"", l⟩
-  | n => resolveElem ns n
-
-/-- `xmlns=""` / no default declaration -/
-def DefaultUnset (ns : Map) : Prop := ns.get "" = none ∨ ns.get "" = some ""
 
 /-! ### round trip -/
 
@@ -98,11 +91,6 @@ theorem roundtrip_attr_counterexample :
 
 /-! ### the invariant is kept by every operation -/
 
-/-- mapper invariant: current and saved maps are consistent dicts -/
-def Good (ns rev : Map) : Prop := ReverseOk ns rev ∧ Map.Nodup ns
-
-def Inv (m : Mapper) : Prop := Good m.ns m.rev ∧ ∀ c ∈ m.stack, Good c.ns c.rev
-
 theorem mkReverse_ok (ns : Map) (hn : Map.Nodup ns) : ReverseOk ns (mkReverse ns) := by
   intro u p h
   unfold mkReverse at h
@@ -117,89 +105,23 @@ theorem mkReverse_ok (ns : Map) (hn : Map.Nodup ns) : ReverseOk ns (mkReverse ns
 theorem init_inv (ns : Map) (hn : Map.Nodup ns) : Inv { ns, rev := mkReverse ns } :=
   ⟨⟨mkReverse_ok ns hn, hn⟩, by simp⟩
 
-theorem popLoop_good (obj level : Nat) : ∀ (st : List Ctx) (r : Option (Map × Map)),
-    (∀ c ∈ st, Good c.ns c.rev) → (∀ x, r = some x → Good x.1 x.2) →
-    (∀ c ∈ (popLoop obj level st r).1, Good c.ns c.rev) ∧
-    (∀ x, (popLoop obj level st r).2.1 = some x → Good x.1 x.2) := by
-  intro st
-  induction st with
-  | nil => intro r _ hr; simpa [popLoop] using hr
-  | cons c rest ih =>
-    intro r hs hr
-    unfold popLoop
-    split
-    · exact ⟨hs, hr⟩
-    · split
-      · exact ⟨hs, hr⟩
-      · apply ih
-        · exact fun c' hc' => hs c' (List.mem_cons_of_mem _ hc')
-        · intro x hx; cases hx; exact hs c List.mem_cons_self
-
-/-- namespaces in force after the pop phase of `set_xmlns_context` -/
-def nsAfterPop (m : Mapper) (obj level : Nat) : Map :=
-  match (popLoop obj level m.stack none).2.1 with
-  | some x => x.1
-  | none => m.ns
-
 /-- **Stacked mode keeps the reverse map consistent** — for every state, level, object and every
-    list of declarations with distinct prefixes: with the repaired repointing rule always; with the
-    rule of the tree under check when the element does not rebind two prefixes of one URI. -/
+    list of declarations with distinct prefixes: with the repointing rule of the tree under check
+    (`Variant.repaired`, fix b20c29d) always; with the rule as it was before that fix when the element does
+    not rebind two prefixes of one URI. -/
 theorem setContext_stacked_inv (v : Variant) (m : Mapper) (obj level : Nat) (decl : Xmlns)
     (hi : Inv m) (hd : NodupKeys decl)
     (hv : v = .repaired ∨ SingleRebind (nsAfterPop m obj level) decl) :
-    Inv (setContext v .stacked m obj level decl).m := by
-  obtain ⟨hg, hs⟩ := hi
-  have hp := popLoop_good obj level m.stack none hs (by simp)
-  unfold setContext
-  unfold nsAfterPop at hv
-  generalize popLoop obj level m.stack none = res at hp hv
-  obtain ⟨stack, restored, found⟩ := res
-  simp only at hp hv ⊢
-  have hcur : Good (match restored with | some (n, _) => n | none => m.ns)
-      (match restored with | some (_, r) => r | none => m.rev) := by
-    cases restored with
-    | none => exact hg
-    | some x => exact hp.2 x rfl
-  have hns : (match restored with | some x => x.1 | none => m.ns) =
-      (match restored with | some (n, _) => n | none => m.ns) := by
-    cases restored <;> rfl
-  rw [hns] at hv
-  cases restored with
-  | none =>
-    simp only at hcur hv ⊢
-    cases found with
-    | some x => by_cases hx : x.isEmpty = true <;> simp only [hx, if_true, if_false] <;> exact ⟨hcur, hp.1⟩
-    | none =>
-      simp only [show (Mode.stacked = Mode.none) = False by simp, if_false]
-      by_cases hx : decl.isEmpty = true <;> simp only [hx, if_true, if_false]
-      · exact ⟨hcur, hp.1⟩
-      · refine ⟨⟨stacked_step_reverseOk level hcur.2 hd hv hcur.1, nodup_update hcur.2 _⟩, ?_⟩
-        intro c hc
-        rcases List.mem_cons.mp hc with e | e
-        · subst e; exact hcur
-        · exact hp.1 c e
-  | some x =>
-    obtain ⟨n, r⟩ := x
-    simp only at hcur hv ⊢
-    cases found with
-    | some x => by_cases hx : x.isEmpty = true <;> simp only [hx, if_true, if_false] <;> exact ⟨hcur, hp.1⟩
-    | none =>
-      simp only [show (Mode.stacked = Mode.none) = False by simp, if_false]
-      by_cases hx : decl.isEmpty = true <;> simp only [hx, if_true, if_false]
-      · exact ⟨hcur, hp.1⟩
-      · refine ⟨⟨stacked_step_reverseOk level hcur.2 hd hv hcur.1, nodup_update hcur.2 _⟩, ?_⟩
-        intro c hc
-        rcases List.mem_cons.mp hc with e | e
-        · subst e; exact hcur
-        · exact hp.1 c e
+    Inv (setContext v .stacked m obj level decl).m :=
+  setContext_stacked_inv_aux v m obj level decl hi hd hv
 
 example : Inv (setContext .repaired .stacked ⟨[("b", "u"), ("p0", "u"), ("k1", "u")], [("u", "b")], []⟩ 1 1
     [("k1", "x"), ("p0", "y")]).m :=
   setContext_stacked_inv _ _ _ _ _
     ⟨⟨reverseOk_of_all (by decide), by decide⟩, by simp⟩ (by decide) (Or.inl rfl)
 
-/-- Finding C17-F2: the rule in the tree under check repoints to a prefix that the same element
-    rebinds.  `<… xmlns:b="u" xmlns:p0="u" xmlns:k1="u"><g xmlns:k1="x" xmlns:p0="y"><b:e/>` :
+/-- Finding C17-F2 (fixed by b20c29d): the rule as it was before the fix repoints to a prefix that the same
+    element rebinds.  `<… xmlns:b="u" xmlns:p0="u" xmlns:k1="u"><g xmlns:k1="x" xmlns:p0="y"><b:e/>` :
     `{u}e` is emitted as `k1:e`, which denotes `{x}e`.  The repaired rule emits `b:e`. -/
 theorem reverse_stale_counterexample :
     let m : Mapper := ⟨[("b", "u"), ("p0", "u"), ("k1", "u")], [("u", "k1")], []⟩
@@ -210,16 +132,28 @@ theorem reverse_stale_counterexample :
     mapQName m2 ⟨"u", "e"⟩ = .pre "b" "e" ∧ resolveElem m2.ns (.pre "b" "e") = some ⟨"u", "e"⟩ := by
   decide
 
-/-  `__setitem__`, full statement (false for the code as it is, finding C17-F5):
-      ∀ m p u, Inv m → Inv (setItem m p u)
-    Rebinding the recorded prefix of another URI leaves that record stale. -/
-theorem setItem_inv_partial (m : Mapper) (p u : String) (hi : Inv m)
+/-- **The tree under check, unconditionally**: `set_xmlns_context` in stacked mode keeps every recorded prefix
+    bound to its URI for every state, level, object and declaration list with distinct prefixes — the
+    `SingleRebind` side condition of the pre-fix rule is gone (fix b20c29d). -/
+theorem setContext_stacked_inv_current (m : Mapper) (obj level : Nat) (decl : Xmlns)
+    (hi : Inv m) (hd : NodupKeys decl) : Inv (setContext .repaired .stacked m obj level decl).m :=
+  setContext_stacked_inv .repaired m obj level decl hi hd (Or.inl rfl)
+
+/-- the very state and declarations of the C17-F2 witness satisfy the hypotheses -/
+example : Inv (setContext .repaired .stacked ⟨[("b", "u"), ("p0", "u"), ("k1", "u")], [("u", "k1")], []⟩ 1 1
+    [("k1", "x"), ("p0", "y")]).m :=
+  setContext_stacked_inv_current _ _ _ _ ⟨⟨reverseOk_of_all (by decide), by decide⟩, by simp⟩ (by decide)
+
+/-  `__setitem__` as it was BEFORE fix b20c29d, full statement (false, finding C17-F5, fixed):
+      ∀ m p u, Inv m → Inv (setItemPre m p u)
+    Rebinding the recorded prefix of another URI left that record stale. -/
+theorem setItemPre_inv_partial (m : Mapper) (p u : String) (hi : Inv m)
     (hguard : ∀ old, m.ns.get p = some old → old = u ∨ m.rev.get old ≠ some p) :
-    Inv (setItem m p u) := by
+    Inv (setItemPre m p u) := by
   obtain ⟨⟨hr, hn⟩, hs⟩ := hi
   refine ⟨⟨?_, nodup_set hn _ _⟩, hs⟩
   intro u' p' h
-  simp only [setItem] at h ⊢
+  simp only [setItemPre] at h ⊢
   rw [get_set] at h
   split at h
   · rename_i e; cases h; subst e; exact get_set_self _ _ _
@@ -232,23 +166,23 @@ theorem setItem_inv_partial (m : Mapper) (p u : String) (hi : Inv m)
       · exact absurd h e
     · rw [get_set_ne _ _ hp]; exact hb
 
-example : Inv (setItem ⟨[("p", "u1"), ("q", "u2")], [("u1", "p"), ("u2", "q")], []⟩ "k" "u1") :=
-  setItem_inv_partial _ _ _ ⟨⟨reverseOk_of_all (by decide), by decide⟩, by simp⟩
+example : Inv (setItemPre ⟨[("p", "u1"), ("q", "u2")], [("u1", "p"), ("u2", "q")], []⟩ "k" "u1") :=
+  setItemPre_inv_partial _ _ _ ⟨⟨reverseOk_of_all (by decide), by decide⟩, by simp⟩
     (by intro old h; simp [Map.get] at h)
 
-theorem setItem_counterexample :
+theorem setItemPre_counterexample :
     let m : Mapper := ⟨[("p", "u1"), ("q", "u1")], [("u1", "p")], []⟩
-    let m1 := setItem m "p" "u2"
+    let m1 := setItemPre m "p" "u2"
     mapQName m1 ⟨"u1", "e"⟩ = .pre "p" "e" ∧ resolveElem m1.ns (.pre "p" "e") = some ⟨"u2", "e"⟩ := by
   decide
 
-/-- The repaired `__setitem__` keeps the invariant for every prefix and URI. -/
-theorem setItemRepaired_inv (m : Mapper) (p u : String) (hi : Inv m) : Inv (setItemRepaired m p u) := by
+/-- `__setitem__` of the tree under check keeps the invariant for every state, prefix and URI. -/
+theorem setItem_inv (m : Mapper) (p u : String) (hi : Inv m) : Inv (setItem m p u) := by
   obtain ⟨⟨hr, hn⟩, hs⟩ := hi
   have hn1 := nodup_set hn p u
   refine ⟨⟨?_, hn1⟩, hs⟩
   intro u' p' h
-  simp only [setItemRepaired] at h ⊢
+  simp only [setItem] at h ⊢
   rw [get_set] at h
   split at h
   · rename_i e; cases h; subst e; exact get_set_self _ _ _
@@ -294,7 +228,7 @@ theorem setItemRepaired_inv (m : Mapper) (p u : String) (hi : Inv m) : Inv (setI
         · right; right; left
           exact ⟨old, hg, fun e2 => hc ⟨e1, e2⟩⟩
 
-example : mapQName (setItemRepaired ⟨[("p", "u1"), ("q", "u1")], [("u1", "p")], []⟩ "p" "u2") ⟨"u1", "e"⟩
+example : mapQName (setItem ⟨[("p", "u1"), ("q", "u1")], [("u1", "p")], []⟩ "p" "u2") ⟨"u1", "e"⟩
     = .pre "q" "e" := by decide
 
 theorem nodup_erase {m : Map} (hn : Map.Nodup m) (k : String) : Map.Nodup (m.erase k) := by
@@ -384,19 +318,11 @@ theorem subtree_restores (v : Variant) (t : Tree) (hd : SibDistinct t) (L : Nat)
 
 /-! ### end to end: every key of the decoded document resolves to the name of its node -/
 
-mutual
-/-- prefixes declared on one element are distinct, everywhere in the document -/
-def DeclsNodup : Tree → Prop
-  | .node _ _ _ decl ch => NodupKeys decl ∧ DeclsNodupList ch
-def DeclsNodupList : List Tree → Prop
-  | [] => True
-  | t :: ts => DeclsNodup t ∧ DeclsNodupList ts
-end
-
 /-- an observation was produced by consistent mapper states -/
 def ObsOk (o : Obs) : Prop :=
   (∃ m1, Inv m1 ∧ o.key = mapQName m1 o.tag ∧ o.nsAtKey = m1.ns) ∧
-  (∃ m3, Inv m3 ∧ o.nsAtAttrs = m3.ns ∧ ∀ a ∈ o.attrs, a.2 = mapQName m3 a.1)
+  (∃ m3, Inv m3 ∧ o.nsAtAttrs = m3.ns ∧ (∀ a ∈ o.attrs, a.2 = mapQName m3 a.1) ∧
+    (∀ a ∈ o.attrsR, a.2 = mapAttr .repaired m3 a.1))
 
 mutual
 theorem visit_inv : ∀ (t : Tree), DeclsNodup t → ∀ (L : Nat) (m : Mapper), Inv m →
@@ -411,10 +337,13 @@ theorem visit_inv : ∀ (t : Tree), DeclsNodup t → ∀ (L : Nat) (m : Mapper),
     intro o ho
     rcases List.mem_cons.mp ho with e | e
     · subst e
-      refine ⟨⟨_, i1, rfl, rfl⟩, ⟨_, i3, rfl, ?_⟩⟩
-      intro a ha
-      obtain ⟨q, _, rfl⟩ := List.mem_map.mp ha
-      rfl
+      refine ⟨⟨_, i1, rfl, rfl⟩, ⟨_, i3, rfl, ?_, ?_⟩⟩
+      · intro a ha
+        obtain ⟨q, _, rfl⟩ := List.mem_map.mp ha
+        rfl
+      · intro a ha
+        obtain ⟨q, _, rfl⟩ := List.mem_map.mp ha
+        rfl
     · exact o2 o e
 theorem visitList_inv : ∀ (ts : List Tree), DeclsNodupList ts → ∀ (L : Nat) (m : Mapper), Inv m →
     Inv (visitList .repaired .stacked L ts m).1 ∧ ∀ o ∈ (visitList .repaired .stacked L ts m).2, ObsOk o
@@ -448,5 +377,399 @@ example : (visit .pinned .stacked 0
     (.node 0 ⟨"", "r"⟩ [] [("p", "u1")] [.node 1 ⟨"u2", "c"⟩ [] [("p", "u2")] [], .node 2 ⟨"u1", "c"⟩ [] [] []])
     ⟨[("p", "u1")], [("u1", "p")], []⟩).2.map (fun o => (o.id, o.key)) =
     [(0, .loc "r"), (1, .pre "p" "c"), (2, .pre "p" "c")] := by decide
+
+
+/-! ### attribute keys, whole documents (stacked mode) -/
+
+/-  Full statement for the attribute keys of a document (false for the code as it is, finding C17-F7):
+      ∀ o ∈ (visit .repaired .stacked 0 t m0).2, ∀ a ∈ o.attrs, resolveAttr o.nsAtAttrs a.2 = some a.1 -/
+/-- **Attribute keys resolve back** for every document and every attribute that does not live in the namespace
+    which is the default namespace of its scope (the reader's rule: the default namespace never applies to
+    attributes, so such an attribute must be written with a prefix). -/
+theorem decoded_attrs_resolve_partial (t : Tree) (m0 : Mapper) (hi : Inv m0) (hk : DeclsNodup t) :
+    ∀ o ∈ (visit .repaired .stacked 0 t m0).2, ∀ a ∈ o.attrs,
+      (a.1.ns ≠ "" → o.nsAtAttrs.get "" ≠ some a.1.ns) → resolveAttr o.nsAtAttrs a.2 = some a.1 := by
+  intro o ho a ha hg
+  obtain ⟨_, ⟨m3, i3, hns, hat, _⟩⟩ := (visit_inv t hk 0 m0 hi).2 o ho
+  rw [hat a ha, hns]
+  apply roundtrip_attr_partial m3 a.1 i3.1.1
+  intro hne hrev
+  exact hg hne (by rw [hns]; exact i3.1.1 _ _ hrev)
+
+example : ∀ o ∈ (visit .repaired .stacked 0 (.node 0 ⟨"", "a"⟩ [⟨"u1", "x"⟩, ⟨"", "y"⟩] [("p", "u1"), ("", "u2")] [])
+    ⟨[("p", "u1"), ("", "u2")], [("u1", "p"), ("u2", "")], []⟩).2, ∀ a ∈ o.attrs,
+      resolveAttr o.nsAtAttrs a.2 = some a.1 := by decide
+
+/-- `<a xmlns="u1" xmlns:p="u1" p:x="v"/>` as a whole document: the key of `{u1}x` is the bare `x`. -/
+theorem decoded_attrs_counterexample :
+    let t : Tree := .node 0 ⟨"u1", "a"⟩ [⟨"u1", "x"⟩] [("", "u1"), ("p", "u1")] []
+    let m0 : Mapper := ⟨[("", "u1"), ("p", "u1")], [("u1", "")], []⟩
+    (initMapper .stacked [] [("", "u1"), ("p", "u1")]).1 = m0 ∧ Inv m0 ∧ DeclsNodup t ∧
+    (visit .repaired .stacked 0 t m0).2.map (fun o => o.attrs.map fun a => (a.2, resolveAttr o.nsAtAttrs a.2)) =
+      [[(.loc "x", some ⟨"", "x"⟩)]] := by
+  refine ⟨by decide, ⟨⟨reverseOk_of_all (by decide), by decide⟩, by simp⟩, ?_, by decide⟩
+  simp only [DeclsNodup, DeclsNodupList]
+  exact ⟨by decide, trivial⟩
+
+/-- **With the repaired attribute rule every attribute key of every document resolves back** (no side
+    condition): notes/fixes/C17-attribute-default-prefix.patch. -/
+theorem decoded_attrs_resolve (t : Tree) (m0 : Mapper) (hi : Inv m0) (hk : DeclsNodup t) :
+    ∀ o ∈ (visit .repaired .stacked 0 t m0).2, ∀ a ∈ o.attrsR, resolveAttr o.nsAtAttrs a.2 = some a.1 := by
+  intro o ho a ha
+  obtain ⟨_, ⟨m3, i3, hns, _, hat⟩⟩ := (visit_inv t hk 0 m0 hi).2 o ho
+  rw [hat a ha, hns]
+  exact roundtrip_attrR_grows m3 a.1 m3.ns i3.1.1 i3.1.2 (grows_refl _)
+
+example : (visit .repaired .stacked 0 (.node 0 ⟨"u1", "a"⟩ [⟨"u1", "x"⟩] [("", "u1"), ("p", "u1")] [])
+    (initMapper .stacked [] [("", "u1"), ("p", "u1")]).1).2.map (fun o => o.attrsR.map (·.2)) = [[.pre "p" "x"]] := by
+  decide
+
+/-! ### every mapper operation, every processing mode (the tree under check) -/
+
+/-- the operations of the mapper API that change its state -/
+inductive Op where
+  | ctx (obj level : Nat) (decl : Xmlns)
+  | set (p u : String)
+  | del (p : String)
+
+def applyOp (mode : Mode) (m : Mapper) : Op → Mapper
+  | .ctx o l d => (setContext .repaired mode m o l d).m
+  | .set p u => setItem m p u
+  | .del p => match delItem m p with
+    | some m' => m'
+    | none => m            -- KeyError
+
+/-- **Every sequence of operations keeps every recorded prefix bound to its URI** — `set_xmlns_context` with
+    arbitrary objects, levels and declaration lists (distinct prefixes per list), `__setitem__`, `__delitem__`,
+    in every xmlns_processing mode, starting from any consistent mapper without contexts (e.g. `__init__`). -/
+theorem ops_inv (mode : Mode) (ops : List Op) (m : Mapper) (hi : Inv m) (hs : m.stack = [])
+    (hk : ∀ o ∈ ops, ∀ ob l d, o = .ctx ob l d → NodupKeys d) :
+    Inv (ops.foldl (applyOp mode) m) := by
+  suffices h : ∀ (ops : List Op) (m : Mapper), Inv m → (mode ≠ .stacked → m.stack = []) →
+      (∀ o ∈ ops, ∀ ob l d, o = .ctx ob l d → NodupKeys d) → Inv (ops.foldl (applyOp mode) m) from
+    h ops m hi (fun _ => hs) hk
+  intro ops
+  induction ops with
+  | nil => intro m hi _ _; exact hi
+  | cons o rest ih =>
+    intro m hi hs hk
+    simp only [List.foldl_cons]
+    have hk' : ∀ o' ∈ rest, ∀ ob l d, o' = .ctx ob l d → NodupKeys d :=
+      fun o' ho' => hk o' (List.mem_cons_of_mem _ ho')
+    cases o with
+    | ctx ob l d =>
+      have hd := hk _ List.mem_cons_self ob l d rfl
+      by_cases hm : mode = .stacked
+      · subst hm
+        exact ih _ (setContext_stacked_inv_current m ob l d hi hd) (fun h => absurd rfl h) hk'
+      · have hf := setContext_flat .repaired mode hm m ob l d hi (hs hm)
+        exact ih _ hf.1 (fun _ => hf.2.1) hk'
+    | set p u => exact ih _ (setItem_inv m p u hi) (fun h => by simpa [applyOp, setItem] using hs h) hk'
+    | del p =>
+      simp only [applyOp]
+      cases hdel : delItem m p with
+      | none => exact ih _ hi hs hk'
+      | some m' =>
+        refine ih _ (delItem_inv m m' p hi hdel) (fun h => ?_) hk'
+        have := hs h
+        unfold delItem at hdel
+        split at hdel
+        · cases hdel
+        · split at hdel
+          · cases hdel; simpa using this
+          · cases hdel
+
+example : Inv ([Op.ctx 1 1 [("p0", "u"), ("k1", "u")], .ctx 2 2 [("k1", "x"), ("p0", "y")], .set "b" "z", .del "p0"].foldl
+    (applyOp .stacked) ⟨[("b", "u")], [("u", "b")], []⟩) :=
+  ops_inv _ _ _ ⟨⟨reverseOk_of_all (by decide), by decide⟩, by simp⟩ rfl (by
+    intro o ho ob l d e; subst e
+    simp only [List.mem_cons, Op.ctx.injEq, List.not_mem_nil, or_false, reduceCtorEq] at ho
+    rcases ho with ⟨_, _, rfl⟩ | ⟨_, _, rfl⟩ <;> decide)
+
+/-! ### collapsed / root-only / none processing: one map that only grows -/
+
+/-- generated prefixes never collide: a slot reported fresh is not a key of the map, a slot reported bound is
+    bound to the very URI -/
+theorem collapsed_prefixes_fresh {ns : Map} {uri : String} {f : Nat} {p q : String} :
+    (findSlot ns uri f p = .fresh q → ns.get q = none) ∧ (findSlot ns uri f p = .bound q → ns.get q = some uri) :=
+  ⟨findSlot_fresh, findSlot_bound⟩
+
+example : findSlot [("p", "u1"), ("p0", "u2")] "u3" 3 "p" = .fresh "p1" := by decide
+
+/-- **Collapsed processing never changes a binding or a record**: after the whole document every binding of the
+    initial map and every reverse record is still there (colliding prefixes are renamed instead), the mapper is
+    consistent and holds no contexts; the same for root-only and none. -/
+theorem flat_bindings_kept (v : Variant) (mode : Mode) (hm : mode ≠ .stacked) (t : Tree) (m0 : Mapper)
+    (hi : Inv m0) (h0 : m0.stack = []) :
+    Inv (visit v mode 0 t m0).1 ∧ (visit v mode 0 t m0).1.stack = [] ∧
+    Grows m0.ns (visit v mode 0 t m0).1.ns ∧ Grows m0.rev (visit v mode 0 t m0).1.rev :=
+  let h := visit_flat v mode hm t 0 m0 hi h0
+  ⟨h.1, h.2.1, h.2.2.1, h.2.2.2.1⟩
+
+example : (visit .repaired .collapsed 0 (.node 0 ⟨"u1", "a"⟩ [] [("p", "u1")] [.node 1 ⟨"u2", "b"⟩ [] [("p", "u2")] []])
+    ⟨[("p", "u1")], [("u1", "p")], []⟩).1.ns = [("p", "u1"), ("p0", "u2")] := by decide
+
+/-- the map the data reports at the root (`get_effective_xmlns` at level 0) is the final map -/
+theorem flat_root_reports_final (v : Variant) (mode : Mode) (t : Tree) (m0 : Mapper) :
+    ((visit v mode 0 t m0).2.head?).map (·.nsAtAttrs) = some (visit v mode 0 t m0).1.ns := by
+  cases t with
+  | node id tag attrs decl ch => simp [visit]
+
+/-  Full statement (false for the code as it is, finding C17-F4):
+      ∀ o ∈ (visit v mode 0 t m0).2, resolveElem (visit v mode 0 t m0).1.ns o.key = some o.tag
+    even for namespace-well-formed documents: a name in no namespace below an `xmlns=""` is emitted bare while the
+    single map keeps the outer default namespace. -/
+/-- **Collapsed / root-only / none: every element key of every document resolves, with the one map the data
+    reports at the root, to the expanded name of its node** — for names in a namespace always (a namespace without
+    a prefix in the map stays in `{uri}local` form); for a name in no namespace when the final map has no default
+    namespace. -/
+theorem flat_names_resolve_partial (v : Variant) (mode : Mode) (hm : mode ≠ .stacked) (t : Tree) (m0 : Mapper)
+    (hi : Inv m0) (h0 : m0.stack = []) :
+    ∀ o ∈ (visit v mode 0 t m0).2,
+      (o.tag.ns = "" → DefaultUnset (visit v mode 0 t m0).1.ns) →
+      resolveElem (visit v mode 0 t m0).1.ns o.key = some o.tag := by
+  intro o ho hd
+  obtain ⟨m1, m3, i1, _, g1, _, _, hkey, _⟩ := (visit_flat v mode hm t 0 m0 hi h0).2.2.2.2 o ho
+  rw [hkey]
+  exact roundtrip_elem_grows m1 o.tag _ i1.1.1 g1 hd
+
+example : ∀ o ∈ (visit .repaired .collapsed 0
+    (.node 0 ⟨"u1", "a"⟩ [] [("p", "u1")] [.node 1 ⟨"u2", "b"⟩ [] [("p", "u2")] [], .node 2 ⟨"u1", "b"⟩ [] [] []])
+    ⟨[("p", "u1")], [("u1", "p")], []⟩).2,
+    resolveElem [("p", "u1"), ("p0", "u2")] o.key = some o.tag := by decide
+
+/-- `<a xmlns="u1"><a xmlns=""><b/></a></a>` collapsed: `b` (no namespace) is emitted as `b`, which the reported
+    map reads as `{u1}b`. -/
+theorem flat_names_counterexample :
+    let t : Tree := .node 0 ⟨"u1", "a"⟩ [] [("", "u1")] [.node 1 ⟨"", "a"⟩ [] [("", "")] [.node 2 ⟨"", "b"⟩ [] [] []]]
+    let m0 : Mapper := ⟨[("", "u1")], [("u1", "")], []⟩
+    let r := visit .repaired .collapsed 0 t m0
+    (initMapper .collapsed [] [("", "u1")]).1 = m0 ∧ Inv m0 ∧ r.2.map (fun o => (o.key, resolveElem r.1.ns o.key)) =
+      [(.loc "a", some ⟨"u1", "a"⟩), (.loc "a", some ⟨"u1", "a"⟩), (.loc "b", some ⟨"u1", "b"⟩)] := by
+  refine ⟨by decide, ⟨⟨reverseOk_of_all (by decide), by decide⟩, by simp⟩, by decide⟩
+
+/-- attribute keys in the one-map modes: same side condition as in stacked mode, against the final map -/
+theorem flat_attrs_resolve_partial (v : Variant) (mode : Mode) (hm : mode ≠ .stacked) (t : Tree) (m0 : Mapper)
+    (hi : Inv m0) (h0 : m0.stack = []) :
+    ∀ o ∈ (visit v mode 0 t m0).2, ∀ a ∈ o.attrs,
+      (a.1.ns ≠ "" → (visit v mode 0 t m0).1.ns.get "" ≠ some a.1.ns) →
+      resolveAttr (visit v mode 0 t m0).1.ns a.2 = some a.1 := by
+  intro o ho a ha hg
+  obtain ⟨m1, m3, _, i3, _, g3, _, _, hat, _⟩ := (visit_flat v mode hm t 0 m0 hi h0).2.2.2.2 o ho
+  rw [hat a ha]
+  apply roundtrip_attr_grows_partial m3 a.1 _ i3.1.1 g3
+  intro hne hrev
+  exact hg hne (g3 _ _ (i3.1.1 _ _ hrev))
+
+/-- … and with the repaired attribute rule unconditionally -/
+theorem flat_attrs_resolve (v : Variant) (mode : Mode) (hm : mode ≠ .stacked) (t : Tree) (m0 : Mapper)
+    (hi : Inv m0) (h0 : m0.stack = []) :
+    ∀ o ∈ (visit v mode 0 t m0).2, ∀ a ∈ o.attrsR, resolveAttr (visit v mode 0 t m0).1.ns a.2 = some a.1 := by
+  intro o ho a ha
+  obtain ⟨m1, m3, _, i3, _, g3, _, _, _, hat, _⟩ := (visit_flat v mode hm t 0 m0 hi h0).2.2.2.2 o ho
+  rw [hat a ha]
+  exact roundtrip_attrR_grows m3 a.1 _ i3.1.1 i3.1.2 g3
+
+example : ∀ o ∈ (visit .repaired .collapsed 0 (.node 0 ⟨"u1", "a"⟩ [⟨"u1", "x"⟩] [("", "u1"), ("p", "u1")] [])
+    (initMapper .collapsed [] [("", "u1"), ("p", "u1")]).1).2, ∀ a ∈ o.attrsR,
+    resolveAttr [("", "u1"), ("p", "u1")] a.2 = some a.1 := by decide
+
+/-- **'none' never looks at the document**: the mapper after any document is the mapper before it. -/
+theorem none_constant (v : Variant) (t : Tree) (m0 : Mapper) (h0 : m0.stack = []) :
+    (visit v .none 0 t m0).1 = m0 := visit_none_const v t 0 m0 h0
+
+/-- **'root-only' uses the declarations of the root only**: below the root no element changes the mapper. -/
+theorem rootOnly_below_root_constant (v : Variant) (ts : List Tree) (L : Nat) (m : Mapper) (h0 : m.stack = []) :
+    (visitList v .rootOnly (L + 1) ts m).1 = m := visitList_rootOnly_const v ts (L + 1) m h0 (by omega)
+
+example : (visit .repaired .rootOnly 0 (.node 0 ⟨"u1", "a"⟩ [] [("p", "u1")] [.node 1 ⟨"u2", "b"⟩ [] [("q", "u2")] []])
+    ⟨[("p", "u1")], [("u1", "p")], []⟩).2.map (·.key) = [.pre "p" "a", .braced "u2" "b"] := by decide
+
+/-! ### process_namespaces / strip_namespaces -/
+
+/-- `process_namespaces=False`: names stay in extended form and denote themselves under any declarations -/
+theorem noprocess_names (m : Mapper) (q : QN) (ns : Map) (hd : q.ns = "" → DefaultUnset ns) :
+    resolveElem ns (mapQNameCfg { process := false, strip := false } m q) = some q := by
+  obtain ⟨u, l⟩ := q
+  by_cases h : u = ""
+  · subst h
+    rcases hd rfl with e | e <;> simp [mapQNameCfg, NameCfg.useNs, resolveElem, e]
+  · simp [mapQNameCfg, NameCfg.useNs, resolveElem, h]
+
+/-- `strip_namespaces=True` does not keep namespace information (outside the property): names of different
+    namespaces get the same key, whatever the mapper -/
+theorem strip_loses_namespace (m : Mapper) (u1 u2 l : String) :
+    mapQNameCfg { process := true, strip := true } m ⟨u1, l⟩ =
+    mapQNameCfg { process := true, strip := true } m ⟨u2, l⟩ := by
+  simp [mapQNameCfg, NameCfg.useNs]
+
+
+/-! ### decoded data as a whole: what it denotes, and what the encoders make of it -/
+
+/-- **Decoded data denotes the document.**  For every document (any size, depth, redeclaration / shadowing
+    pattern; distinct prefixes per element, distinct sibling objects) decoded in stacked mode from a consistent
+    mapper, a reader that starts from nothing and uses only the xmlns entries the data reports for an item and its
+    ancestors resolves every element key and every attribute key to the expanded name of its XML node — with and
+    without the pruning of childless items by the default converter (`keep_result_dict`), for names matched by
+    wildcards as for declared ones (the model never looks at declarations).  Side conditions (`WellScoped`): a
+    name in no namespace occurs only where the default namespace is unset, and — for the attribute rule of the
+    tree under check only — no attribute lives in the default namespace of its scope (C17-F7). -/
+theorem decoded_data_denotes (a : AttrRule) (prune : Bool) (t : Tree) (m0 : Mapper) (hi : Inv m0)
+    (h0 : m0.stack = []) (hk : DeclsNodup t) (hd : SibDistinct t) (hw : WellScoped a m0.ns t) :
+    readItem Scope.empty (decodeT .repaired a prune .stacked 0 t m0).2 = docNames t :=
+  decode_denotes a prune t m0 hi h0 hk hd hw
+
+/-- a shadowing document with a childless item whose dictionary the default converter drops -/
+example : readItem Scope.empty (decodeT .repaired .current true .stacked 0
+    (.node 0 ⟨"u1", "a"⟩ [⟨"u2", "x"⟩] [("p", "u1"), ("q", "u2")]
+      [.node 1 ⟨"u2", "b"⟩ [] [("p", "u2")] [.node 3 ⟨"u2", "a"⟩ [] [("k", "u3")] []], .node 2 ⟨"u1", "b"⟩ [] [] []])
+    ⟨[("p", "u1"), ("q", "u2")], [("u1", "p"), ("u2", "q")], []⟩).2 =
+    [(0, some ⟨"u1", "a"⟩, [some ⟨"u2", "x"⟩]), (1, some ⟨"u2", "b"⟩, []), (3, some ⟨"u2", "a"⟩, []),
+     (2, some ⟨"u1", "b"⟩, [])] := by decide
+
+/-- **The encoders restore exactly the names the data denotes** (stacked mode; every data tree with distinct
+    sibling objects, any depth and redeclaration pattern, whether or not it came from a decoder): the tag under
+    which each item is encoded and the names of its attributes are what the XML-Namespaces reader computes from
+    the reported declarations, starting from the encoder's initial map.  `Readable`: every key denotes a name, and
+    an unprefixed attribute key that the element's type does not declare occurs only where the default namespace
+    is unset (else `unmap_qname(name, xsd_element.attributes)` moves it into the default namespace: C17-F9). -/
+theorem encoder_reads_data (v : Variant) (tab : Nat → String → Bool) (item : Item) (e0 : Mapper)
+    (h0 : e0.stack = []) (hd : ItemDistinct item) (hr : Readable tab e0.ns.get item) :
+    (encodeDoc v .stacked tab item e0).2.map encProj = readItem e0.ns.get item :=
+  encode_reads v tab item e0 h0 hd hr
+
+example : (encodeDoc .repaired .stacked (fun _ l => l = "y")
+    (.node 0 (.pre "p" "a") true [("p", "u1")] [.loc "y"]
+      [.node 1 (.pre "p" "b") true [("p", "u2")] [.pre "p" "x"] [], .node 2 (.pre "p" "b") false [] [] []])
+    ⟨[], [], []⟩).2.map encProj =
+    [(0, some ⟨"u1", "a"⟩, [some ⟨"", "y"⟩]), (1, some ⟨"u2", "b"⟩, [some ⟨"u2", "x"⟩]), (2, some ⟨"u1", "b"⟩, [])] := by
+  decide
+
+/-- the encoder's stack discipline: the namespaces in force at each item are the fold of the reported xmlns on
+    the path root → item over the initial map (one call may pop several contexts: there is no purge call) -/
+theorem encoder_scopes (v : Variant) (tab : Nat → String → Bool) (tag : Unmapped) (item : Item) (e0 : Mapper)
+    (h0 : e0.stack = []) (hd : ItemDistinct item) (hm : AllMaps item) :
+    (encVisit v .stacked tab 0 tag item e0).2.map (fun e => (e.id, e.ns.get)) = encScopes e0.ns.get item :=
+  encode_scopes v tab tag item e0 h0 hd hm
+
+example : (encVisit .repaired .stacked (fun _ _ => false) 0 (.name ⟨"", "r"⟩)
+    (.node 0 (.loc "r") true [("p", "u1")]
+      [] [.node 1 (.loc "c") true [("p", "u2")] [] [.node 3 (.loc "d") true [("q", "u3")] [] []],
+          .node 2 (.loc "c") true [] [] []]) ⟨[], [], []⟩).2.map (fun e => (e.id, e.ns)) =
+    [(0, [("p", "u1")]), (1, [("p", "u2")]), (3, [("p", "u2"), ("q", "u3")]), (2, [("p", "u1")])] := by decide
+
+/-- mapper level: `unmap_qname` undoes `map_qname` on element names -/
+theorem unmap_map_elem (m : Mapper) (q : QN) (hr : ReverseOk m.ns m.rev) (hd : q.ns = "" → DefaultUnset m.ns) :
+    unmapQName m.ns [] false (mapQName m q) = .name q :=
+  unmap_eq_read (by rw [readElem_get]; exact roundtrip_elem m q hr hd)
+
+example : unmapQName [("p", "u1"), ("q", "u1")] [] false (mapQName ⟨[("p", "u1"), ("q", "u1")], [("u1", "q")], []⟩ ⟨"u1", "a"⟩)
+    = .name ⟨"u1", "a"⟩ := by decide
+
+theorem mapAttr_repaired_loc {m : Mapper} {q : QN} {l : String} (h : mapAttr .repaired m q = .loc l) : q.ns = "" := by
+  unfold mapAttr at h
+  simp only at h
+  split at h
+  · split at h
+    · assumption
+    · split at h <;> cases h
+  · rename_i n hn
+    exact absurd h (hn l)
+
+/-  Full statement for attribute names (false for the code as it is, finding C17-F9):
+      ∀ m q tab, ReverseOk m.ns m.rev → unmapQName m.ns [] tab (mapAttr .repaired m q) = .name q -/
+/-- mapper level, attribute names (repaired attribute rule): `unmap_qname(key, xsd_element.attributes)` undoes
+    the key unless the attribute is in no namespace, undeclared, and a default namespace is in force -/
+theorem unmap_map_attr_partial (m : Mapper) (q : QN) (tab : Bool) (hr : ReverseOk m.ns m.rev) (hn : Map.Nodup m.ns)
+    (hguard : q.ns = "" → tab = true ∨ DefaultUnset m.ns) :
+    unmapQName m.ns [] tab (mapAttr .repaired m q) = .name q := by
+  apply unmap_attr_eq_read (by rw [readAttr_get]; exact roundtrip_attr_repaired' m q hr hn)
+  intro l hl
+  rcases hguard (mapAttr_repaired_loc hl) with h | h | h
+  · exact Or.inl h
+  · exact Or.inr (Or.inl h)
+  · exact Or.inr (Or.inr h)
+
+example : unmapQName [("", "u1"), ("p", "u1")] [] false
+    (mapAttr .repaired ⟨[("", "u1"), ("p", "u1")], [("u1", "")], []⟩ ⟨"u1", "x"⟩) = .name ⟨"u1", "x"⟩ := by decide
+
+/-- `<a xmlns="u1" z="v"/>` with `z` matched by the attribute wildcard: the key `z` is read back as `{u1}z`. -/
+theorem unmap_map_attr_counterexample :
+    let m : Mapper := ⟨[("", "u1")], [("u1", "")], []⟩
+    ReverseOk m.ns m.rev ∧ mapAttr .repaired m ⟨"", "z"⟩ = .loc "z" ∧
+    unmapQName m.ns [] false (.loc "z") = .name ⟨"u1", "z"⟩ := by
+  exact ⟨reverseOk_of_all (by decide), by decide, by decide⟩
+
+theorem scope_bind_congr : ∀ (l : Xmlns) (s1 s2 : Scope), (∀ k, (∀ d ∈ l, d.1 ≠ k) → s1 k = s2 k) →
+    Scope.bind s1 l = Scope.bind s2 l := by
+  intro l
+  induction l with
+  | nil => intro s1 s2 h; exact funext fun k => h k (by simp)
+  | cons d t ih =>
+    intro s1 s2 h
+    simp only [Scope.bind, List.foldl_cons]
+    apply ih
+    intro k hk
+    by_cases e : d.1 = k
+    · simp [e]
+    · simp only [e, if_false]
+      apply h
+      intro d' hd'
+      rcases List.mem_cons.mp hd' with rfl | h'
+      · exact e
+      · exact hk d' h'
+
+/-  Full statement (false for the code as it is: C17-F7 / C17-F9, and C17-F4 for documents that are not
+    `WellScoped`):  ∀ t m0 e0 …, (encodeDoc … (decodeT … t m0).2 e0).2.map encProj = docNames t -/
+/-- **Encoding the decoded data restores the expanded names of the document** (stacked mode): decode-name →
+    encode-name is the identity on every element and attribute of every document, for both attribute rules, with
+    and without pruning, when the encoder starts with no prefix beyond those the data (re)declares at its root
+    (what `get_namespaces` reads from the data; violated by C17-F8) and under the side conditions of
+    `decoded_data_denotes` plus `UnqualDeclared` (an attribute in no namespace that the element's type does not
+    declare occurs only where the default namespace is unset: C17-F9). -/
+theorem encode_decode_names_partial (a : AttrRule) (prune : Bool) (tab : Nat → String → Bool) (t : Tree)
+    (m0 e0 : Mapper) (hi : Inv m0) (h0 : m0.stack = []) (he : e0.stack = []) (hk : DeclsNodup t)
+    (hd : SibDistinct t) (hw : WellScoped a m0.ns t) (ht : UnqualDeclared tab m0.ns t)
+    (hroot : ∀ k, e0.ns.get k ≠ none →
+      ∃ d ∈ Item.xmlns (decodeT .repaired a prune .stacked 0 t m0).2, d.1 = k) :
+    (encodeDoc .repaired .stacked tab (decodeT .repaired a prune .stacked 0 t m0).2 e0).2.map encProj =
+      docNames t := by
+  have hden := decode_denotes a prune t m0 hi h0 hk hd hw
+  have hrd := decode_readable a prune tab t m0 hi h0 hk hd hw ht
+  have hdist := decode_distinct a prune .stacked .repaired t 0 m0 hd
+  generalize (decodeT .repaired a prune .stacked 0 t m0).2 = item at hden hrd hdist hroot
+  obtain ⟨id, key, isMap, xmlns, attrs, ch⟩ := item
+  have hb : Scope.bind e0.ns.get xmlns = Scope.bind Scope.empty xmlns := by
+    apply scope_bind_congr
+    intro k hk'
+    cases hg : e0.ns.get k with
+    | none => rfl
+    | some v =>
+      obtain ⟨d, hd', e⟩ := hroot k (by rw [hg]; simp)
+      exact absurd e (hk' d hd')
+  have hr2 : Readable tab e0.ns.get (.node id key isMap xmlns attrs ch) := by
+    simp only [Readable] at hrd ⊢
+    rw [hb]; exact hrd
+  rw [encode_reads .repaired tab _ e0 he hdist hr2, ← hden]
+  simp only [readItem, hb]
+
+example : (encodeDoc .repaired .stacked (fun _ l => l = "y") (decodeT .repaired .current true .stacked 0
+    (.node 0 ⟨"u1", "a"⟩ [⟨"u2", "x"⟩, ⟨"", "y"⟩] [("p", "u1"), ("q", "u2")]
+      [.node 1 ⟨"u2", "b"⟩ [] [("p", "u2")] [.node 3 ⟨"u2", "a"⟩ [] [("k", "u3")] []], .node 2 ⟨"u1", "b"⟩ [] [] []])
+    ⟨[("p", "u1"), ("q", "u2")], [("u1", "p"), ("u2", "q")], []⟩).2
+    ⟨[("p", "u1"), ("q", "u2")], [("u1", "p"), ("u2", "q")], []⟩).2.map encProj =
+    [(0, some ⟨"u1", "a"⟩, [some ⟨"u2", "x"⟩, some ⟨"", "y"⟩]), (1, some ⟨"u2", "b"⟩, []), (3, some ⟨"u2", "a"⟩, []),
+     (2, some ⟨"u1", "b"⟩, [])] := by decide
+
+/-- `<a xmlns="u1" z="v"/>`, `z` undeclared (attribute wildcard): the decoded data denotes the document (key `@z`),
+    the encoder makes `{u1}z` of it. -/
+theorem encode_decode_names_counterexample :
+    let t : Tree := .node 0 ⟨"u1", "a"⟩ [⟨"", "z"⟩] [("", "u1")] []
+    let m0 : Mapper := ⟨[("", "u1")], [("u1", "")], []⟩
+    readItem Scope.empty (decodeT .repaired .current true .stacked 0 t m0).2 = docNames t ∧
+    (encodeDoc .repaired .stacked (fun _ _ => false) (decodeT .repaired .current true .stacked 0 t m0).2 m0).2.map encProj =
+      [(0, some ⟨"u1", "a"⟩, [some ⟨"u1", "z"⟩])] ∧
+    docNames t = [(0, some ⟨"u1", "a"⟩, [some ⟨"", "z"⟩])] := by
+  refine ⟨by decide, by decide, by decide⟩
 
 end XsVerif.Props.C17
